@@ -1,5 +1,5 @@
 use crate::akamai::{AkamaiFingerprint, Http2Priority, PseudoHeader, SettingId, SettingParameter};
-use crate::http2_parser::Http2Parser;
+use crate::http2_parser::{first_header_block, Http2Parser};
 use crate::http2_parser::{Http2Frame, Http2FrameType};
 use crate::http_common::HttpHeader;
 use hpack_patched::Decoder;
@@ -201,8 +201,9 @@ fn extract_pseudo_header_order(frames: &[Http2Frame]) -> Vec<PseudoHeader> {
         .iter()
         .find(|f| f.frame_type == Http2FrameType::Headers && f.stream_id > 0);
 
-    if let Some(frame) = headers_frame {
-        if let Ok(headers) = decode_headers(&frame.payload) {
+    if let Some(block) = headers_frame.and_then(|frame| first_header_block(frame.stream_id, frames))
+    {
+        if let Ok(headers) = decode_headers(&block) {
             return headers
                 .iter()
                 .filter(|h| h.name.starts_with(':'))
